@@ -337,8 +337,11 @@ def r10(ctx, R):
                     if not re.search(r'\.uend\b|\.u\[', val):
                         continue  # per-process quantities (timings) are legitimately recorded by every step
                     n_sol += 1
-                    g = ' and '.join(ast.unparse(t) for t, pol in cfg.guards[id(s)] if pol)
-                    if 'step.status.last' not in g:
+                    from ..norm import guards_nnf
+                    from .. import facts as _facts
+                    nf = guards_nnf(_facts.guard_strings(cfg, s))
+                    atoms = set(nf[1]) if isinstance(nf, tuple) and nf[0] == 'and' else {nf}
+                    if 'step.status.last' not in atoms:
                         bad.append(ast.unparse(c)[:60])
         if not n_sol:
             continue
